@@ -379,8 +379,8 @@ class ParameterFormatter(FileIOMixin, object):
                     if not asymmetric_error:
                         _err = f"%.{n_significant_digits}g" % self.error
                     else:
-                        _err_u = f"%.{n_significant_digits}g" % self.error_up
-                        _err_d = f"%.{n_significant_digits}g" % self.error_down
+                        _err_u = f"%.{n_significant_digits}g" % abs(self.error_up)
+                        _err_d = f"%.{n_significant_digits}g" % abs(self.error_down)  # the sign is part of the template
 
                 if asymmetric_error:
                     if format_as_latex:
